@@ -263,9 +263,10 @@ pub fn session_blocking(fr: &Frames, idx: &RepIndex, verify: bool, evs: &[REv], 
     let t = Transport::new(evs.to_vec(), ws.to_vec());
     let mut f = BFramed::new(Box::new(t.clone()), Codec::new(mode_of(fr.compressed)));
     f.verify_version(verify);
-    let mut trace = vec![];
+    let mut trace = vec![]; let wline = format!("session {} {} {} | {}", mode_tag(fr.compressed), verify as u8, fr.table(), evs.iter().map(ev_tag).collect::<Vec<_>>().join(" "));
     for _ in 0..max_reads {
-        let r = guard(|| f.read());
+        // (watched: a read() that spins on the scripted transport is reported with the session instead of stalling the run)
+        let r = watched("blocking Framed::read", || wline.clone(), || guard(|| f.read()));
         let w = t.take_written();
         if !w.is_empty() { trace.push(format!("W{}", hex(&w))); }
         match r {
@@ -286,9 +287,9 @@ pub fn session_async(rt: &tokio::runtime::Runtime, fr: &Frames, idx: &RepIndex, 
     let t = Transport::new(evs.to_vec(), ws.to_vec());
     let mut f = AFramed::new(Box::new(t.clone()), Codec::new(mode_of(fr.compressed)));
     f.verify_version(verify);
-    let mut trace = vec![];
+    let mut trace = vec![]; let wline = format!("session {} {} {} | {}", mode_tag(fr.compressed), verify as u8, fr.table(), evs.iter().map(ev_tag).collect::<Vec<_>>().join(" "));
     for _ in 0..max_reads {
-        let r = guard(|| rt.block_on(async { f.read().await }));
+        let r = watched("tokio Framed::read", || wline.clone(), || guard(|| rt.block_on(async { f.read().await })));
         let w = t.take_written();
         if !w.is_empty() { trace.push(format!("W{}", hex(&w))); }
         match r {
